@@ -303,6 +303,7 @@ class Check:
             if not different:
                 self.known_hits.append((fid_hit, f"{o.clause}: {self.known_ids[fid_hit].get('what', '')}"))
                 self.discharged_known = getattr(self, "discharged_known", 0) + 1
+                self.discharged += 1  # discharged with the listed witness class excluded (re-solved with NOT witness as hypothesis)
                 return
         if rep.get("reproduced") is True:
             path = self._write_replay(o.clause, body)
